@@ -2218,7 +2218,7 @@ impl<'comments> Formatter<'comments> {
         if let (UntypedPattern::Var { name, .. }, Some(label)) = (&arg.value, &arg.label)
             && name == label
         {
-            return self.pattern(&arg.value);
+            return commented(self.pattern(&arg.value), comments);
         }
 
         let doc = arg
